@@ -227,6 +227,23 @@ class HeapMixin:
         st = self.set_seq_items(st, v, items)
         return st, v
 
+    def set_content(self, st: State, v: VSet) -> T:
+        so = elem_sort(v.elem)
+        return select(self.heap_array(st, f"$set${so}", INT, f"(Array {so} Bool)"), v.t)
+
+    def set_set_content(self, st: State, v: VSet, content: T) -> State:
+        so = elem_sort(v.elem)
+        st = st.copy()
+        a = self.heap_array(st, f"$set${so}", INT, f"(Array {so} Bool)")
+        st.heap[f"$set${so}"] = store(a, v.t, content)
+        return st
+
+    def new_set(self, st: State, elem: Kind, content: T):
+        st, r = self.alloc_ref(st)
+        v = VSet(r, elem)
+        self._tag(st, v)
+        return self.set_set_content(st, v, content), v
+
     def _tag(self, st: State, v):
         a = self.heap_array(st, "$type", INT, INT)
         st.heap["$type"] = store(a, v.t, self.container_tag(v))
